@@ -57,7 +57,7 @@ func TestC13(t *testing.T) {
 		cfg := batchCfg{
 			Size:  rapid.SampledFrom([]uint32{1, 2, 5, 10}).Draw(t, "batchSize"),
 			Delay: rapid.SampledFrom([]uint32{50, 250, 2000}).Draw(t, "batchDelayMicros"),
-			Pool:  rapid.SampledFrom([]int{1, 2, 4}).Draw(t, "pool"),
+			Pool:  rapid.SampledFrom([]int{1, 2, 4, 6}).Draw(t, "pool"),
 		}
 		env := batchEnvFor(cfg)
 		f := env.fake
@@ -83,6 +83,16 @@ func TestC13(t *testing.T) {
 				plans[ci] = append(plans[ci], op)
 			}
 		}
+		// a "poison" key: every request naming it cuts the connection, so a get that
+		// includes it can never be completed and has to end in an error after all retries
+		poison := rapid.IntRange(0, 3).Draw(t, "poison") == 0
+		if poison {
+			ci := rapid.IntRange(0, callers-1).Draw(t, "poisonCaller")
+			pos := rapid.IntRange(0, nops-1).Draw(t, "poisonOp")
+			keys := []string{fmt.Sprintf("c%d-r0", ci), "poison-key", fmt.Sprintf("c%d-r1", ci)}
+			quiets := []bool{rapid.Bool().Draw(t, "pq0"), rapid.Bool().Draw(t, "pq1"), false}
+			plans[ci][pos] = c13Op{Kind: "get", Keys: keys, Quiets: quiets}
+		}
 		total := callers * nops
 		nf := rapid.IntRange(1, 4).Draw(t, "nfaults")
 		var faults []c13Fault
@@ -95,7 +105,7 @@ func TestC13(t *testing.T) {
 		}
 		idleCut := rapid.IntRange(0, 3).Draw(t, "idleCut") == 0
 		refuseMs := rapid.SampledFrom([]int{0, 0, 30, 150}).Draw(t, "refuseMs")
-		descr := fmt.Sprintf("%+v callers=%d ops=%d faults=%+v idleCut=%v refuseMs=%d", cfg, callers, nops, faults, idleCut, refuseMs)
+		descr := fmt.Sprintf("%+v callers=%d ops=%d faults=%+v idleCut=%v refuseMs=%d poisonKey=%v", cfg, callers, nops, faults, idleCut, refuseMs, poison)
 
 		if idleCut {
 			f.CloseConns()
@@ -103,6 +113,10 @@ func TestC13(t *testing.T) {
 		var ff []*fakemc.Fault
 		for _, fl := range faults {
 			ff = append(ff, fl.toFake())
+		}
+		if poison {
+			// first in the plan: it takes precedence over an index fault that happens to hit the same request
+			ff = append([]*fakemc.Fault{{Match: func(r *fakemc.Req) bool { return strings.HasPrefix(r.Key, "poison") }, Kind: fakemc.FaultCloseBefore, Repeat: true}}, ff...)
 		}
 		acceptsBefore := f.Accepts()
 		f.Arm(ff...)
@@ -131,7 +145,15 @@ func TestC13(t *testing.T) {
 							opq[j] = uint32(100*s + j)
 						}
 						resps, err := execGetFull(h, op.Keys, opq, op.Quiets, false)
-						if err == nil {
+						hasPoison := false
+						for _, k := range op.Keys {
+							if k == "poison-key" {
+								hasPoison = true
+							}
+						}
+						if hasPoison && err == nil {
+							problems[ci] = fmt.Sprintf("caller %d op %d get %v: one of the keys can never be answered (its requests always cut the connection) but the call reported no error; responses: %v", ci, s, op.Keys, resps)
+						} else if err == nil {
 							if len(resps) != len(op.Keys) {
 								problems[ci] = fmt.Sprintf("caller %d op %d get %v: no error but %d responses for %d requested keys: %v", ci, s, op.Keys, len(resps), len(op.Keys), resps)
 							}
